@@ -253,6 +253,21 @@ def main_check(prop, tier, replay=None):
         exit_code = 1
         if len(reported) >= 2:
             break
+    # determinism re-check: the first plans of this very run, executed twice more, must give the same digests
+    det = {"plans": 0, "equal": 0}
+    if exit_code == 0:
+        for idx in range(min(8, n_runs)):
+            run_seed = core.derive(master, prop, tier, idx)
+            plan = next(iter(suite.cases(random.Random(run_seed), tier, run_seed, idx=idx)), None)
+            if plan is None:
+                continue
+            d1, d2 = run_one(suite, plan).digest, run_one(suite, plan).digest
+            det["plans"] += 1
+            det["equal"] += int(d1 == d2)
+        if det["plans"] != det["equal"]:
+            print("HARNESS-ERROR property=%s nondeterministic execution: %r" % (prop, det), flush=True)
+            return 2
+    agg["determinism_recheck"] = det
     wall = time.time() - t0
     write_evidence(suite, prop, tier, master, agg, wall, wall_search, n_runs, cut, len(reported), workers)
     print("property=%s tier=%s cases=%d executions=%d nontrivial=%d violations=%d wall=%.1fs%s" % (
@@ -286,6 +301,7 @@ def write_evidence(suite, prop, tier, master, agg, wall, wall_search, n_planned,
             "probes": dict(sorted(agg["probes"].items())),
             "probes_at_zero": zero_probes,
             "inconclusive": dict(sorted(agg["inconclusive"].items())),
+            "determinism_recheck": agg.get("determinism_recheck"),
             "components_real": COMPONENTS_REAL if getattr(suite, "components_real", None) is None else suite.components_real,
             "components_simulated": COMPONENTS_SIM if getattr(suite, "components_sim", None) is None else suite.components_sim,
             "exhaustive": False,
